@@ -37,8 +37,10 @@ def cfg_env(milestone=None, shrink=False):
     e = {}
     if milestone is not None:
         e['VERIF_MILESTONE'] = str(milestone)
-    if shrink:
-        e['VERIF_SHRINK'] = '1'
+    if shrink is not None and shrink is not False:
+        e['VERIF_SHRINK'] = '1' if shrink else '0'
+    elif shrink is False and milestone == 'noshrink':
+        e['VERIF_SHRINK'] = '0'
     return e
 
 
@@ -196,7 +198,7 @@ def RT(fmt, layout='file', compact=False):
 
 
 JSON_RTS = [RT('json', 'string'), RT('json', 'string', True), RT('json', 'file'), RT('json', 'resources'), RT('json', 'datasets'),
-            RT('json', 'both')]
+            RT('json', 'both'), RT('json', 'substore')]
 
 
 def roundtrip_jobs(prop, tier, seed):
@@ -214,6 +216,8 @@ def roundtrip_jobs(prop, tier, seed):
              gen_job('rt_remove_p5', 'remove', 5, depth=1 if quick else 2, style=(style + 1) % 5 if prop != 'C15' else 0, roundtrips=rts, **big),
              gen_job('rt_remove_p6', 'remove', 6, depth=1 if quick else 2, style=(style + 2) % 5 if prop != 'C15' else 0, roundtrips=rts, **big),
              gen_job('rt_all_p6', 'all', 6, depth=1, style=(style + 3) % 5 if prop != 'C15' else 0, roundtrips=rts, **big),
+             gen_job('rt_multi_p10', 'remove', 10, depth=1 if quick else 2, style=style, roundtrips=rts, MaxAnns=10, MaxRes=2, MaxData=6, MaxSets=2),
+             gen_job('rt_multi_p10b', 'complex', 10, depth=1, style=style, roundtrips=rts, MaxAnns=10, MaxRes=2, MaxData=6, MaxSets=2),
              gen_job('rt_reads_p6', 'remove', 6, depth=1, style=style, reads=['lookup', 'anntext', 'segment'], per_state=True, roundtrips=rts, **big),
              gen_job('rt_offsets_p7', 'offsets', 7, depth=1, style=style, roundtrips=rts, per_state=True, MaxAnns=12, MaxRes=3),
              gen_job('rt_sim_all', 'all', 1, simulate=12 if quick else 150, simdepth=6 if quick else 10, size='m', style=style, roundtrips=rts,
